@@ -175,7 +175,7 @@ class MayRaise:
         """Exception class names produced by ``raise e``."""
         if e is None:
             # bare raise: re-raise what the innermost handler caught
-            return list(handler_stack[-1][1]) if handler_stack else ["BaseException"]
+            return list(handler_stack[-1][1]) if handler_stack else []
         if isinstance(e, ast.Call):
             f = e.func
             nm = f.attr if isinstance(f, ast.Attribute) else (f.id if isinstance(f, ast.Name) else None)
@@ -261,7 +261,8 @@ class MayRaise:
                 for h in st.handlers:
                     hn = self._exc_names_of_handler(h)
                     # what the handler may re-raise: the declared classes (for bare raise)
-                    caught = caught_by.get(id(h), set()) or set(hn)
+                    # a bare `raise` re-raises what the body is known to raise (nothing known -> nothing added)
+                    caught = caught_by.get(id(h), set())
                     hs = handler_stack + [(h.name, sorted(caught))]
                     for exc, wit in block(h.body, hs).items():
                         res.setdefault(exc, wit)
